@@ -179,7 +179,21 @@ func runC20(c *Case) {
 				args = append(args, "bogus_option=1")
 				why = "unknown option"
 			case 1:
-				args = append(args, args[r.Intn(len(args))])
+				dup := args[r.Intn(len(args))]
+				if r.Bool() {
+					// the same option again with another value
+					switch name := strings.SplitN(dup, "=", 2)[0]; name {
+					case "columns":
+						dup = "columns='x primary key, y'"
+					case "entries_per_node":
+						dup = "entries_per_node=8"
+					case "node_cache_entries":
+						dup = "node_cache_entries=3"
+					default:
+						dup = name + "='other'"
+					}
+				}
+				args = append(args, dup)
 				why = "duplicated option"
 			case 2:
 				args = args[1:]
